@@ -26,6 +26,13 @@ impl Exit {
             Exit::Timeout => "watchdog timeout".into(),
         }
     }
+    /// Killed by the CPU-time rlimit the harness itself imposed (SIGXCPU, or SIGKILL at the
+    /// hard limit): for workloads on VALID input this says the case was too expensive for
+    /// its budget, not that the program is wrong — inconclusive. (C15 uses the limit as its
+    /// oracle for hostile input and does not call this.)
+    pub fn hit_cpu_limit(&self) -> bool {
+        matches!(self, Exit::Signal(s) if *s == libc::SIGXCPU || *s == libc::SIGKILL)
+    }
     /// Panic (101), abort or any other signal.
     pub fn crashed(&self) -> bool {
         matches!(self, Exit::Code(101) | Exit::Signal(_))
